@@ -311,7 +311,7 @@ impl Gen {
             0..=69 => None,
             70..=81 => Some(next),
             82..=87 => Some(next + self.rng.range(1, 1000)),
-            88..=89 => Some(next + (1u64 << self.rng.range(10, 40))),
+            88..=89 => Some(next + (1u64 << self.rng.range(10, 60))),
             90..=94 => {
                 if next > 0 {
                     Some(next - 1)
@@ -350,7 +350,7 @@ impl Gen {
             60..=74 if n > 0 => last.unwrap(),
             75..=79 if first.unwrap_or(0) > 0 => self.rng.below(first.unwrap()),
             80..=89 => next + self.rng.range(0, 50),
-            90..=92 => next + (1u64 << self.rng.range(8, 40)),
+            90..=92 => next + (1u64 << self.rng.range(8, 60)),
             _ => {
                 if next > 0 {
                     next - 1
